@@ -82,6 +82,31 @@ chk("C19", "model_checking",
     "result among the iterates, result fields agree).",
     RUN_NOTE, "TLA+ trace validation (TLC) of recorded real runs against BadsRunTrace.tla", "DESIGN.md 6 C19")
 
+chk("C06", "other",
+    "The per-run clause (never worse than the mesh-snapped start) is decided by TLC on every trace. The population clauses (>= 90% of 60 random rotated quadratics "
+    "within 1e-3; median evaluations-to-1e-2 <= 40*D) are statistical and cannot be stated in TLA+: they are measured on a panel every run of which is validated "
+    "as a behaviour of BadsRunTrace (so a change that cripples the search/poll controller shows up as a conformance violation as well) and which must exercise "
+    "SearchEnd(success/incremental) and PollEnd(good).",
+    RUN_NOTE + " The statistical thresholds are the property's own; the panel is a sample, not a proof.",
+    "TLA+ trace validation of a 60-problem panel + measured panel statistics", "DESIGN.md 6 C06, 7")
+chk("C08", "model_checking",
+    "BoundsCheck.tla transcribes validity from the property statement; TLC enumerates all 8 345 canonical one-coordinate definitions (special-value mask x weak ordering) "
+    "with the expected verdict; each is fed to the real constructor under several value maps (zero / negative / decade positions) and spellings (scalar, list, tuple, (D,), (1,D), int); "
+    "D=2,3 products of class representatives; ulp-neighbour cells; short runs compared bit for bit across spellings.",
+    "Trusted base: TLC, the value maps and the Normalised oracle of the driver. Exhaustive for D=1 up to order-isomorphism; D=2,3 by representatives.",
+    "TLC exhaustive enumeration of BoundsCheck.tla replayed into the real BADS constructor", "DESIGN.md 6 C08")
+chk("C11", "model_checking",
+    "VarTransf.tla / VarTransfDec.tla give mode, exact rational image, clamping and monotonicity for every bound quadruple and test point of an integer grid around the decade rule "
+    "and of the decade grid 1e-12..1e12; every case replayed into the real VariableTransformer alone and inside mixed log/linear D=2,3 transformers (masking code), plus integer-typed bounds; "
+    "off-grid and just-outside points are checked by numeric guards (round trip, box, order).",
+    "Trusted base: TLC, the driver's guards (off-grid numeric accuracy is a guard, not a TLC decision).",
+    "TLC exhaustive enumeration of VarTransf*.tla replayed into the real VariableTransformer", "DESIGN.md 6 C11")
+chk("C16", "fault_enumeration",
+    "GPTrain.tla models both retry ladders with the lengths of X, Y and the noise vector; TLC checks FitArgsConsistent / NeverAborts / RunCompletes for every fault pattern over the first 8 fit "
+    "invocations (<= 4 faults) and generates the patterns; each pattern is replayed by making GP.fit raise LinAlgError at exactly those invocations in deterministic, declared-noise and "
+    "specified-noise runs; the faulted trace must validate in full against BadsRunTrace (bounds, budget, truthful result, no crash) and every FitAttempt must have consistent arguments.",
+    RUN_NOTE, "TLC-generated fit-fault patterns (GPTrain.tla) replayed into real runs, each validated by TLC against BadsRunTrace.tla", "DESIGN.md 6 C16")
+
 ALL = ["C%02d" % i for i in range(1, 21)]
 
 
